@@ -465,6 +465,8 @@ def _op_instances(rnd, spec, n_qubits, full):
     if n_qubits:
         adds.append(("H", (n_qubits + 1,), None, None, False))             # out of range for the fixed size
         adds.append(("CNOT", (0,), (n_qubits,), None, False))
+        adds.append(("RY", (n_qubits,), None, 0.5, True))                   # out of range AND variational: must leave no trace at all
+        adds.append(("CRZ", (0,), (n_qubits + 2,), 0.25, True))
     out += [("add_gate", a, False) for a in adds]
     other = [([("RX", (1,), None, "@a", True), ("CNOT", (3,), (1,), None, False)], None), ([("MEASURE", (0,), None, None, False)], 6)]
     for o in (other if full else other[:1]):
